@@ -98,6 +98,31 @@ def run(rep: common.Report, tier: str, seed: int, replay=None) -> int:
                     ndis += 1
                     if ndis < 8:
                         rep.not_shown(f"correspondence: {nm} differs from Model.Units", {**case, "impl": iv, "model": mv})
+    # ---------- the device's physical scales (SI), whatever length unit the device is stated in ----------
+    for si in range(4 if tier == "quick" else 20):
+        xi_m, lam_m, d_m = 10 ** rng.uniform(-7.5, -5.5), 10 ** rng.uniform(-7, -5), 10 ** rng.uniform(-8, -6)
+        sigma_si = 10 ** rng.uniform(5, 8)                      # S / m
+        want = {"Bc2": Phi0 / (2 * np.pi * xi_m ** 2), "A0": Phi0 / (2 * np.pi * xi_m), "Lambda": lam_m ** 2 / d_m, "kappa": lam_m / xi_m,
+                "K0": 4 * xi_m * (Phi0 / (2 * np.pi * xi_m ** 2)) / (mu0 * lam_m ** 2 / d_m),
+                "tau0": mu0 * sigma_si * lam_m ** 2,
+                "V0": xi_m * (4 * xi_m * (Phi0 / (2 * np.pi * xi_m ** 2)) / (mu0 * lam_m ** 2 / d_m) / d_m) / sigma_si,
+                "conductivity": sigma_si}
+        for lu in LU:
+            u_ = LU[lu]
+            dvs = tdgl.Device("scales", layer=tdgl.Layer(coherence_length=xi_m / u_, london_lambda=lam_m / u_, thickness=d_m / u_,
+                                                         conductivity=sigma_si * u_),
+                              film=tdgl.Polygon("film", points=np.array([[0, 0], [1, 0], [1, 1], [0, 1]]) * (1e-6 / u_)), length_units=lu)
+            got = {"Bc2": dvs.Bc2, "A0": dvs.A0, "Lambda": dvs.Lambda, "K0": dvs.K0, "tau0": dvs.tau0(), "V0": dvs.V0(),
+                   "conductivity": dvs.conductivity}
+            for nm_, q_ in got.items():
+                v_ = float(q_.to_base_units().magnitude)
+                if abs(v_ - want[nm_]) > 1e-9 * abs(want[nm_]):
+                    rep.violation(f"Device.{nm_} (SI) depends on the length unit the device is stated in / is not the documented formula",
+                                  {"length_units": lu, "got": v_, "expected": want[nm_], "xi_m": xi_m, "lambda_m": lam_m, "d_m": d_m, "sigma": sigma_si})
+            if abs(float(dvs.kappa) - want["kappa"]) > 1e-9 * want["kappa"]:
+                rep.violation("Device.kappa depends on the length unit", {"length_units": lu})
+            rep.count(1)
+        rep.nontrivial(("device-scales", si))
     # ---------- flux per triangle ----------
     for lu, fu, B in (("um", "mT", 0.7), ("nm", "uT", 350.0), ("mm", "T", 2e-4)):
         dev = device_in(base, lu)
